@@ -549,3 +549,103 @@ Proof.
   - intros [H1 H2]. now constructor.
   - intros H. inversion H; subst. now split.
 Qed.
+
+(* ================= the complete functional description of SortKeyValues ================= *)
+(* the output is: the entries named by order[0] (in input order), then those named by order[1],
+   ..., finally the unlisted ones (in input order) - "bucket layout" *)
+Section Buckets.
+  Context {A : Type} (r : A -> nat).
+
+  Definition bucket (l : list A) (i : nat) : list A := filter (fun x => r x =? i) l.
+  Definition buckets (l : list A) (a len : nat) : list A := flat_map (bucket l) (seq a len).
+
+  Lemma filter_flat_map {B} (f : A -> bool) (g : B -> list A) (l : list B) :
+    filter f (flat_map g l) = flat_map (fun x => filter f (g x)) l.
+  Proof.
+    induction l as [|x t IH]; [reflexivity|]. cbn [flat_map]. now rewrite filter_app, IH.
+  Qed.
+
+  Lemma filter_bucket l n i :
+    filter (at_rank r n) (bucket l i) = if i =? n then filter (at_rank r n) l else [].
+  Proof.
+    unfold bucket, at_rank. induction l as [|x t IH]; [now destruct (i =? n)|].
+    cbn [filter]. destruct (r x =? i) eqn:Ei; cbn [filter]; destruct (r x =? n) eqn:En.
+    - apply Nat.eqb_eq in Ei, En. subst. rewrite Nat.eqb_refl in *. now f_equal.
+    - rewrite IH. destruct (i =? n) eqn:E; [|reflexivity].
+      apply Nat.eqb_eq in Ei, E. apply Nat.eqb_neq in En. lia.
+    - rewrite IH. destruct (i =? n) eqn:E; [|reflexivity].
+      apply Nat.eqb_eq in En, E. apply Nat.eqb_neq in Ei. lia.
+    - exact IH.
+  Qed.
+
+  Lemma filter_buckets l n : forall len a,
+    filter (at_rank r n) (buckets l a len) =
+    if (a <=? n) && (n <? a + len) then filter (at_rank r n) l else [].
+  Proof.
+    unfold buckets. induction len as [|len IH]; intros a.
+    - cbn [seq flat_map filter]. destruct ((a <=? n) && (n <? a + 0)) eqn:E; [|reflexivity].
+      apply andb_true_iff in E as [E1 E2]. apply Nat.leb_le in E1. apply Nat.ltb_lt in E2. lia.
+    - cbn [seq flat_map]. rewrite filter_app, filter_bucket, IH.
+      destruct (a =? n) eqn:E.
+      + apply Nat.eqb_eq in E. subst.
+        assert ((S n <=? n) && (n <? S n + len) = false) as ->.
+        { apply andb_false_iff. left. apply Nat.leb_gt. lia. }
+        assert ((n <=? n) && (n <? n + S len) = true) as ->.
+        { apply andb_true_iff. split; [apply Nat.leb_le|apply Nat.ltb_lt]; lia. }
+        apply app_nil_r.
+      + apply Nat.eqb_neq in E. cbn [app].
+        replace ((S a <=? n) && (n <? S a + len)) with ((a <=? n) && (n <? a + S len)); [reflexivity|].
+        apply Bool.eq_iff_eq_true. rewrite !andb_true_iff, !Nat.leb_le, !Nat.ltb_lt. lia.
+  Qed.
+
+  Lemma buckets_ranks l : forall len a x, In x (buckets l a len) -> a <= r x.
+  Proof.
+    unfold buckets. induction len as [|len IH]; intros a x H; [destruct H|].
+    cbn [seq flat_map] in H. apply in_app_or in H as [H|H].
+    - unfold bucket in H. apply filter_In in H as [_ H]. apply Nat.eqb_eq in H. lia.
+    - apply IH in H. lia.
+  Qed.
+
+  Lemma bucket_sorted l i : StronglySorted (le_r r) (bucket l i).
+  Proof.
+    unfold bucket. induction l as [|x t IH]; [constructor|]. cbn [filter].
+    destruct (r x =? i) eqn:E; [|exact IH]. constructor; [exact IH|].
+    rewrite Forall_forall. intros y Hy. apply filter_In in Hy as [_ Hy].
+    apply Nat.eqb_eq in E, Hy. unfold le_r. lia.
+  Qed.
+
+  Lemma buckets_sorted l : forall len a, StronglySorted (le_r r) (buckets l a len).
+  Proof.
+    induction len as [|len IH]; intros a; [constructor|].
+    unfold buckets. cbn [seq flat_map]. apply ss_app; [apply bucket_sorted|apply IH|].
+    intros x y Hx Hy. unfold bucket in Hx. apply filter_In in Hx as [_ Hx]. apply Nat.eqb_eq in Hx.
+    apply buckets_ranks in Hy. unfold le_r. lia.
+  Qed.
+
+  Lemma stable_sort_is_bucket_layout l N :
+    (forall x, In x l -> r x <= N) -> stable_sort_by r l = buckets l 0 (S N).
+  Proof.
+    intros Hb. symmetry. apply stable_sort_unique; [apply buckets_sorted|].
+    intros n. rewrite filter_buckets. cbn [Nat.leb andb Nat.add].
+    destruct (n <? S N) eqn:E; [reflexivity|]. apply Nat.ltb_ge in E.
+    symmetry. induction l as [|x t IH]; [reflexivity|]. cbn [filter]. unfold at_rank at 1.
+    destruct (r x =? n) eqn:Ex.
+    - apply Nat.eqb_eq in Ex. specialize (Hb x (or_introl eq_refl)). lia.
+    - apply IH. intros y Hy. apply Hb. now right.
+  Qed.
+End Buckets.
+
+Lemma rank_bound order k : rank order k <= length order.
+Proof.
+  destruct (listed order k) eqn:E.
+  - apply rank_listed in E. lia.
+  - apply rank_unlisted in E. lia.
+Qed.
+
+Lemma sort_key_values_bucket_layout kvs order :
+  sort_key_values kvs order =
+  flat_map (fun i => filter (fun x => rank order (fst x) =? i) kvs) (seq 0 (S (length order))).
+Proof.
+  rewrite sort_key_values_spec. apply (stable_sort_is_bucket_layout (kv_rank order)).
+  intros x _. apply rank_bound.
+Qed.
